@@ -122,7 +122,10 @@ struct CModel {
 }
 
 fn fail(rep: &mut Report, tag: &str, kind: &str, n: usize, path: &str, what: &str, exp: String, obs: String) {
-    rep.violation(viol(tag, what, format!("{kind}|{n}|{path}"), format!("{kind}<Tracked, {n}> after [{path}]: {what}"), exp, obs));
+    // "C11+C15": the observation contradicts both statements (the builder's visible contents and the move ledger)
+    for t in tag.split('+') {
+        rep.violation(viol(t, what, format!("{kind}|{n}|{path}"), format!("{kind}<Tracked, {n}> after [{path}]: {what}"), exp.clone(), obs.clone()));
+    }
 }
 
 fn path_str<T: std::fmt::Debug>(p: &[T]) -> String {
@@ -321,6 +324,9 @@ enum BOp {
     Drop(u8),
     Clone,
     ClonePanic(u8),
+    /// `objs[dst].clone_from(&objs[1 - dst])` (both objects live): dst ends up with clones of the source's prefix, its
+    /// previous elements are dropped
+    CloneFrom(u8),
 }
 
 fn run_builder<const N: usize>(rep: &mut Report, path: &[BOp]) -> bool {
@@ -336,8 +342,8 @@ fn run_builder<const N: usize>(rep: &mut Report, path: &[BOp]) -> bool {
         let mut counter = 0u64;
         'steps: for op in path {
             rep.transitions += 1;
-            let which = match op { BOp::Push(w) | BOp::Build(w) | BOp::Drop(w) => *w as usize, BOp::Clone | BOp::ClonePanic(_) => 0 };
-            if objs[which].is_none() || (matches!(op, BOp::Clone | BOp::ClonePanic(_)) && objs[1].is_some()) {
+            let which = match op { BOp::Push(w) | BOp::Build(w) | BOp::Drop(w) | BOp::CloneFrom(w) => *w as usize, BOp::Clone | BOp::ClonePanic(_) => 0 };
+            if objs[which].is_none() || (matches!(op, BOp::Clone | BOp::ClonePanic(_)) && objs[1].is_some()) || (matches!(op, BOp::CloneFrom(_)) && objs[1 - which].is_none()) {
                 enabled = false;
                 break;
             }
@@ -396,6 +402,18 @@ fn run_builder<const N: usize>(rep: &mut Report, path: &[BOp]) -> bool {
                     model[1] = Some(c.as_slice().iter().map(|t| (t.id, t.payload)).collect());
                     objs[1] = Some(c);
                 }
+                BOp::CloneFrom(_) => {
+                    let src_payloads: Vec<u64> = model[1 - which].as_ref().unwrap().iter().map(|x| x.1).collect();
+                    let (a, b) = objs.split_at_mut(1);
+                    let (dst, src) = if which == 0 { (a[0].as_mut().unwrap(), b[0].as_ref().unwrap()) } else { (b[0].as_mut().unwrap(), a[0].as_ref().unwrap()) };
+                    dst.clone_from(src);
+                    let got: Vec<u64> = dst.as_slice().iter().map(|t| t.payload).collect();
+                    if got != src_payloads || dst.len() != src_payloads.len() {
+                        violation = Some(("C11+C15", "clone_from contents".into(), format!("{src_payloads:?}"), format!("{got:?} (len {})", dst.len())));
+                        break 'steps;
+                    }
+                    model[which] = Some(dst.as_slice().iter().map(|t| (t.id, t.payload)).collect());
+                }
                 BOp::ClonePanic(k) => {
                     let live = model[0].as_ref().unwrap().len();
                     if *k as usize >= live {
@@ -441,7 +459,7 @@ fn run_builder<const N: usize>(rep: &mut Report, path: &[BOp]) -> bool {
 }
 
 fn builder_ops() -> Vec<BOp> {
-    vec![BOp::Push(0), BOp::Build(0), BOp::Drop(0), BOp::Clone, BOp::ClonePanic(0), BOp::ClonePanic(1), BOp::Push(1), BOp::Build(1), BOp::Drop(1)]
+    vec![BOp::Push(0), BOp::Build(0), BOp::Drop(0), BOp::Clone, BOp::ClonePanic(0), BOp::ClonePanic(1), BOp::Push(1), BOp::Build(1), BOp::Drop(1), BOp::CloneFrom(0), BOp::CloneFrom(1)]
 }
 
 fn dfs_builder<const N: usize>(rep: &mut Report, path: &mut Vec<BOp>, depth: usize) {
@@ -595,7 +613,7 @@ pub fn run(which: &str, tier: Tier, rep: &mut Report) -> (String, String) {
     rep.notes.push(format!("shared C11/C15 ledger engine: {} kept violations carried the other property's tag", before - rep.violations.len()));
     rep.violations_total = rep.violations.len() as u64;
     (
-        "state = an operation history executed from scratch (stateless exploration by re-execution) on ArrayConsumer<Tracked,N> (ops next, next_back, drop, assert_is_empty, clone -> second live object, start from empty()) / ArrayBuilder<Tracked,N> (push, build, drop, clone); after every step as_slice/len/is_full are compared with a deque/vec model and every live element is modified through as_mut_slice; at the end of every history the thread-local ledger must show each element handed out or dropped exactly once (at most once on panic paths), in original order with the expected payload; map_!/from_fn_! with a closure panicking at each element k; distinct_nontrivial counted conservatively as half of the complete histories".into(),
+        "state = an operation history executed from scratch (stateless exploration by re-execution) on ArrayConsumer<Tracked,N> (ops next, next_back, drop, assert_is_empty, clone -> second live object, start from empty()) / ArrayBuilder<Tracked,N> (push, build, drop, clone, clone_from between the two live objects); after every step as_slice/len/is_full are compared with a deque/vec model and every live element is modified through as_mut_slice; at the end of every history the thread-local ledger must show each element handed out or dropped exactly once (at most once on panic paths), in original order with the expected payload; map_!/from_fn_! with a closure panicking at each element k; distinct_nontrivial counted conservatively as half of the complete histories".into(),
         format!("N in 0..={maxn}, history depth min(N+{extra}, {}), at most 2 live objects; every enabled sequence; {zst_bounds}", tier.pick(8, 9, 4)),
     )
 }
